@@ -186,12 +186,12 @@ class C08(CleanBase):
         env = dict(GOENV, NO_COLOR="1")
         env.pop("CI", None)
         binp = os.path.join(workdir, "bbrun.test")
-        p = subprocess.run(["go", "test", "-c", "-vet=off", "-o", binp, "."], cwd=mod, env=env, stdout=subprocess.PIPE, stderr=subprocess.STDOUT, text=True)
+        p = subprocess.run(["go", "test", "-c", "-vet=off", "-o", binp, "."], cwd=mod, env=env, stdout=subprocess.PIPE, stderr=subprocess.STDOUT, text=True, timeout=900)
         if p.returncode != 0:
             return [{"msg": "black-box build failed: " + p.stdout[-800:]}], {}
         snapdir = os.path.join(mod, "__snapshots__")
         base = os.path.join(workdir, "bb_baseline")
-        subprocess.run([binp, "-test.count=1"], cwd=mod, env=dict(env, BB_RECORD="1"), stdout=subprocess.PIPE, stderr=subprocess.STDOUT, text=True)
+        subprocess.run([binp, "-test.count=1"], cwd=mod, env=dict(env, BB_RECORD="1"), stdout=subprocess.PIPE, stderr=subprocess.STDOUT, text=True, timeout=900)
         shutil.rmtree(base, ignore_errors=True)
         shutil.copytree(snapdir, base)
 
@@ -216,7 +216,7 @@ class C08(CleanBase):
                 if mode == "clean":
                     e2["UPDATE_SNAPS"] = "clean"
                 args = [binp, "-test.count=1", "-test.v"] + (["-test.run", pat] if pat else [])
-                p = subprocess.run(args, cwd=mod, env=e2, stdout=subprocess.PIPE, stderr=subprocess.STDOUT, text=True)
+                p = subprocess.run(args, cwd=mod, env=e2, stdout=subprocess.PIPE, stderr=subprocess.STDOUT, text=True, timeout=900)
                 runs += 1
                 ran = set(re.findall(r"^=== RUN\s+(\S+)", p.stdout, re.M))
                 skipped = set(re.findall(r"^\s*--- SKIP: (\S+)", p.stdout, re.M))
